@@ -162,6 +162,13 @@ func getGrafanaNetAddr(addr string) (string, string, string) {
 // NewGrafanaNet creates a special route that writes to a grafana.net datastore
 // We will automatically run the route and the destination
 func NewGrafanaNet(key string, matcher matcher.Matcher, cfg GrafanaNetConfig) (Route, error) {
+	// Dispatch shards by hash % Concurrency and every shard gets a buffer of BufSize / Concurrency
+	if cfg.Concurrency < 1 {
+		return nil, fmt.Errorf("NewGrafanaNet: invalid value for 'concurrency': %d. need at least 1", cfg.Concurrency)
+	}
+	if cfg.BufSize < 0 {
+		return nil, fmt.Errorf("NewGrafanaNet: invalid value for 'bufSize': %d. must not be negative", cfg.BufSize)
+	}
 	schemas, err := getSchemas(cfg.SchemasFile)
 	if err != nil {
 		return nil, err
